@@ -13,6 +13,7 @@ EXPLANATION = (
     "same transaction as the other indexes. Byte identity over all histories and mmap semantics are not decided.")
 EXPLANATION += " Also decided: the length remembered for the grow arithmetic comes from the file's metadata; no function of pocket-db writes to a file through a file handle; delineate rejects exactly the inputs shorter than 152 bytes (the smallest event) or than their own recorded length."
 EXPLANATION += " Also decided: every position of the packed event is read with one width by all its readers (a reader that takes the content length as 2 bytes where the others take 4 disagrees with the layout); the length stored for the next grow is the one just passed to set_len; no function of pocket-db builds slices from raw pointers or keeps a raw pointer in an atomic."
+EXPLANATION += " Also decided: get_offset_by_id answers only after reading the id table through the caller's transaction (no remembered answers)."
 ASSUMPTIONS = ["the kernel's mmap keeps file contents coherent with the mapping"]
 
 
@@ -32,3 +33,5 @@ def run(ctx):
     storage.reopen_validates_marker(ctx, s)
     storage.append_index_commit_order(ctx, s, "pocket_db::Store::store_event")
     txn.effects_use_callers_txn(ctx, s, "pocket_db::Store::store_event")
+    from . import tables
+    tables.lookups_answer_from_table(ctx, s, ("get_offset_by_id",))
